@@ -22,7 +22,9 @@ RULE = ('case = (mapping of set properties -> values, body size, channel). Sweep
         'Oracle: consumed == len, same channel, ContentHeader, same body size, class id '
         '60, set properties type-exactly equal (C03 normalisation for headers and '
         'timestamp), all others None (cluster_id ""), and marshal(decoded) == original '
-        'bytes. Non-trivial = >= 2 properties present with >= 1 absent between two present '
+        'bytes. sequences: 2-4 headers encoded in one process, a step may re-use the '
+        'previous object after re-assigning every attribute, timestamps include the two '
+        'equal-comparing datetimes of a repeated DST hour (PEP 495 fold). Non-trivial = >= 2 properties present with >= 1 absent between two present '
         'ones, or content_type (flag bit 15) present; distinct = digest of the case.')
 ASSUMPTIONS = [
     'weight is documented as unused and always 0',
@@ -44,9 +46,10 @@ def expected(name, v):
     return v
 
 
-def check(case):
+def check(case, obj=None):
     props, body_size, ch = case['props'], case['body_size'], case['ch']
-    obj = call('construct', make_header, props, body_size)
+    if obj is None:
+        obj = call('construct', make_header, props, body_size)
     data = call('marshal', frame.marshal, obj, ch)
     res = call('unmarshal', frame.unmarshal, data)
     n, rch, out = res
@@ -79,6 +82,46 @@ def check(case):
         raise Violation('reencode', 're-encoding the decoded header gives %d bytes '
                         'differing from the original %d bytes' %
                         (len(again), len(data)))
+
+
+def check_sequence(case):
+    """several headers encoded one after the other in one process; a step may re-use the
+    previous ContentHeader / Properties object after re-assigning every attribute"""
+    obj = None
+    for step in case['steps']:
+        if step.get('reuse') and obj is not None:
+            obj.body_size = step['body_size']
+            for name in NAMES:
+                setattr(obj.properties, name,
+                        step['props'].get(name, '' if name == 'cluster_id' else None))
+        else:
+            obj = call('construct', make_header, step['props'], step['body_size'])
+        check(step, obj)
+
+
+def sequence_cases(tier):
+    twins = st.builds(S.fold_pair, st.integers(1971, 2105), st.integers(0, 59),
+                      st.integers(0, 999999))
+
+    def steps(pair, cases, which, reuse):
+        out = []
+        for i, c in enumerate(cases):
+            props = dict(c['props'])
+            if which[i % len(which)] < 2:
+                props['timestamp'] = pair[which[i % len(which)]]
+                if i % 2:
+                    props['headers'] = {'t': pair[which[i % len(which)]]}
+            out.append(dict(c, props=props, reuse=reuse[i % len(reuse)]))
+        return {'steps': out}
+    return st.builds(steps, twins,
+                     st.lists(S.header_cases(), min_size=2, max_size=4),
+                     st.lists(st.integers(0, 2), min_size=1, max_size=4),
+                     st.lists(st.booleans(), min_size=1, max_size=4))
+
+
+def sequence_nontrivial(case):
+    return any(s.get('reuse') for s in case['steps'][1:]) or \
+        sum(1 for s in case['steps'] if 'timestamp' in s['props']) >= 2
 
 
 def _present(case):
@@ -160,6 +203,14 @@ COMPONENTS = [
     Component('subsets', check, cases=subset_cases, nontrivial=nontrivial,
               classes=classes, distinct_by_construction=True, exhaustive=True,
               describe='all 8192 presence subsets x 2 fixed value sets'),
+    Component('sequences', check_sequence, strategy=sequence_cases,
+              nontrivial=sequence_nontrivial,
+              classes=lambda c: ['steps=%d' % len(c['steps']),
+                                 'reuse' if any(s.get('reuse') for s in c['steps'][1:])
+                                 else 'fresh-objects'],
+              budget={'quick': 4800, 'thorough': 96000},
+              describe='2-4 headers in sequence: object re-use after re-assignment, '
+                       'equal-comparing timestamps of the repeated DST hour'),
     Component('headers', check, strategy=header_cases, nontrivial=nontrivial,
               classes=classes, budget={'quick': 16000, 'thorough': 320000},
               describe='random subsets and values'),
